@@ -354,13 +354,21 @@ inline bool plan_effect(Model const& M, ModelTraits const& T, Op const& op, Effe
 		if(!slot_ok(D, op.a, T) || !M.at(D, op.a).alive) return false;
 		MView v;
 		if(!model_view(M, T, op.db, op.b, op.cb, v) || v.D != D) return false;
-		if(op.db == D && op.b == op.a) return false;  // aliasing source: documented as unprotected
+		bool const self_source = op.db == D && op.b == op.a;  // a view of the target itself
 		if((op.kind == O_ASSIGN_ITER || op.kind == O_ASSIGN_RANGE) && (v.n[0] < 1 || v.count() == 0)) return false;
 		if(T.static_arrays && op.kind != O_ASSIGN_VIEW) return false;  // assign/from are members of the resizable array only
 		if(op.var < 0 || op.var > 1) return false;
 		MArr const& a0   = M.at(D, op.a);
 		bool const  same = dims_equal(a0, D, v.n);
 		if(T.static_arrays && !same) return false;
+		if(self_source) {
+			// element-wise assignment from an aliasing view is documented as unprotected; but whenever the library has to build
+			// a new value first (the extents differ, and for the overloads with a reshape path also the element count), the
+			// source may well be a view of the target itself
+			bool const rebuilds = !same && ((op.kind == O_ASSIGN_VIEW && op.var == 0) || op.kind == O_ASSIGN_ITER || op.kind == O_ASSIGN_RANGE || v.count() != a0.count());
+			if(!rebuilds || T.static_arrays || v.count() == 0) return false;
+			var("self-view");
+		}
 		if(v.count() == 0 && !same) {
 			// assigning an empty view: extents reported by empty views are not regular; only from a regular empty
 			for(int k = 1; k < v.D; ++k)
@@ -673,8 +681,10 @@ inline bool plan_effect(Model const& M, ModelTraits const& T, Op const& op, Effe
 		if(!T.serialization || op.file < 0 || op.file >= NFILE || op.arch < 0 || op.arch > 2) return false;
 		MView v;
 		if(!model_view(M, T, op.da, op.a, op.ca, v)) return false;
-		if(op.var < 0 || op.var > 2) return false;
-		if(op.var != 1 && op.ca.n != 0) return false;  // var 0 saves the owning array itself, var 2 the same array re-indexed to base 1
+		if(op.var < 0 || op.var > 3) return false;
+		if(op.var == 3 && v.D < 2) return false;         // var 3 saves through a read-only view (its own serialize; 1-D does not compile at the pinned commit)
+		if(op.var != 1 && op.var != 3 && op.ca.n != 0) return false;  // var 0 saves the owning array itself, var 2 the same array re-indexed to base 1
+		if(v.count() == 0 && op.var == 3) return false;
 		if(op.var == 2 && (v.count() == 0 || T.static_arrays)) return false;
 		if(v.count() == 0 && op.var == 1) return false;
 		if(v.count() == 0) {  // empty arrays: only regular empties (leading extent zero), see I4
@@ -687,7 +697,7 @@ inline bool plan_effect(Model const& M, ModelTraits const& T, Op const& op, Effe
 		e.file_next         = MFile{};
 		e.file_next.valid    = true;
 		e.file_next.arch     = op.arch;
-		e.file_next.is_array = op.var != 1;
+		e.file_next.is_array = op.var != 1 && op.var != 3;
 		e.file_next.base     = op.var == 2 ? 1 : 0;
 		e.file_next.D        = v.D;
 		for(int k = 0; k < v.D; ++k) e.file_next.n[k] = v.n[k];
@@ -695,7 +705,7 @@ inline bool plan_effect(Model const& M, ModelTraits const& T, Op const& op, Effe
 		e.elems       = v.count();
 		static char const* an[] = {"text", "binary", "xml"};
 		var(an[op.arch]);
-		var(op.var == 1 ? "view" : op.var == 2 ? "reindexed-array" : "array");
+		var(op.var == 1 ? "view" : op.var == 2 ? "reindexed-array" : op.var == 3 ? "const-view" : "array");
 		return true;
 	}
 	case O_LOAD: {
